@@ -5,7 +5,7 @@ use std::collections::{BTreeMap, BTreeSet, HashMap};
 
 use saito_core::core::consensus::block::Block;
 use saito_core::core::consensus::burnfee::BurnFee;
-use saito_core::core::consensus::slip::SlipType;
+use saito_core::core::consensus::slip::{Slip, SlipType};
 use saito_core::core::consensus::transaction::{Transaction, TransactionType};
 use saito_core::core::defs::{SaitoHash, SaitoSignature, Timestamp};
 use serde::{Deserialize, Serialize};
@@ -630,6 +630,22 @@ pub fn apply_block_level_edit(block: &mut Block, e: &str, creator: &Key, _w: &Le
             block.burnfee += 1;
             block.generate_pre_hash();
             block.sign(&creator.private);
+        }
+        "append_uncounted_tx" => {
+            // a valid zero-value transaction that claims to stand for no transaction at all (txs_replacements = 0),
+            // appended under the signed header: the transaction list changed, the block must be refused
+            let k = &_w.keys["k2"];
+            let mut t = Transaction::default();
+            t.timestamp = block.timestamp;
+            t.txs_replacements = 0;
+            let mut i = Slip::default();
+            i.public_key = k.public;
+            t.add_from_slip(i);
+            let mut o = Slip::default();
+            o.public_key = k.public;
+            t.add_to_slip(o);
+            t.sign(&k.private);
+            block.transactions.push(t);
         }
         "atr_redirect" => {
             // the first rebroadcast pays a key that never owned the output; root and signature are redone by the creator
